@@ -547,3 +547,31 @@ def check_int_casts(ctx, rep, files=("encoding/json/decode.rs", "encoding/json/e
                 else:
                     rep.bad("R-CAST", "R-CAST:intcast:%s:%s->%s" % (b.short, f, t), b.where(bi, st.get("line")), "%s casts %s to %s without a range guard: values outside the target range wrap (e.g. a JSON integer above i64::MAX becomes negative)" % (b.short.split("::")[-1], f, t))
     return n
+
+
+def check_owned_keys(ctx, rep):
+    """every key / element type the Hayson visitor asks serde for is an owned type: a borrowed `&str` key can only be produced
+    for an unescaped member name of an in-memory string, so `"\\u005fkind"`, from_reader and from_value documents would be rejected"""
+    prog = ctx.prog
+    n = 0
+    for b in prog.bodies.values():
+        if not b.file.endswith("encoding/json/decode.rs"):
+            continue
+        k = 0
+        for bi, t in b.calls():
+            c = callee_of(t)
+            if c is None:
+                continue
+            fn = strip_generics(c["fn"])
+            if not re.match(r"^serde::de::(MapAccess|SeqAccess)::next_", fn):
+                continue
+            n += 1
+            targs = [x for x in c.get("targs", []) if not x.startswith("'")][1:]
+            borrowed = [x for x in targs if x.startswith("&")]
+            key = "owned-types:%s:%s#%d" % (b.short.split("::")[-1], fn.split("::")[-1], k)
+            k += 1
+            if borrowed:
+                rep.bad("T-HAYSON", "T-HAYSON:owned-types:%s:%s" % (b.short.split("::")[-1], fn.split("::")[-1]), b.where(bi), "%s asks for the borrowed type(s) %s: serde_json can hand those out only for unescaped text of an in-memory str, other spellings / sources of the same document fail with 'expected a borrowed string'" % (fn.split("::")[-1], borrowed))
+            else:
+                rep.ok("T-HAYSON", key, b.where(bi), "%s::<%s>: owned" % (fn.split("::")[-1], ", ".join(x.split("::")[-1] for x in targs)))
+    return n
